@@ -16,14 +16,14 @@ claimed = {
          "must-execute + origin analysis of hint outputs; polynomial bound evaluation; interprocedural constant propagation", "§4 C05"),
  "C06": ("strong structural claim (level other): enum-dispatch path analysis for every RangeCheckerType constant, constructor paths (Defer iff COMMIT, installed checker matches kind, selector conditions), drain coverage and alignment refusals, bit-decomposition width, RangeCheck limb rules (linear forms). Ranges are not evaluated numerically.",
          "CFG path analysis per enum constant + linear-form evaluation + loop coverage", "§4 C06"),
- "C07": ("narrow structural clauses only (level other): zero branch of Inverse, Reduce's constant width ≥144 from a never-reassigned global, every reducing method returns a canonically range-checked hint output. Numerical exactness is not decided.",
-         "expression-shape matching + origin analysis", "§4 C07"),
+ "C07": ("narrow structural clauses only (level other): zero branch of Inverse, Reduce's constant width ≥144 from a never-reassigned global, every reducing method returns a canonically range-checked hint output; MulAcc accumulator discipline (owned and dead after the call) at every MulAcc site of the goldilocks package, so results do not depend on the R1CS builder re-using storage. Numerical exactness is not decided.",
+         "expression-shape matching + origin analysis + ownership/liveness analysis of MulAcc accumulators", "§4 C07 / §10.8"),
  "C08": ("narrow structural clauses only (level other): InverseExtension asserts the product of both coordinates' zero tests is 0; DivExtension forwards its divisor to it. Field identities are not decided.",
          "expression-shape matching + must-call", "§4 C08"),
  "C09": ("narrow structural clauses only (level other): inputs reduced first (full-range loop, only reduction results reach the sponge); permutation is a function (R1/W1 of the s-box reductions); sibling constant tables agree and are canonical. Equality with plonky2 for all inputs is not decided.",
          "origin analysis + constant-table comparison from type-checked syntax", "§4 C09"),
- "C10": ("narrow structural clauses only (level other): the injectivity half of the property — limb packing in HashNoPad/HashOrNoop is Σ limb_k·base^k with constant base ≥ 2^64, exponent = limb index, bounded limb count with base^T ≤ r; ToVec chunks the canonical decomposition into consecutive disjoint ≤63-bit chunks. Numeric agreement of the BN254 Poseidon permutation/sponge/shortcut with the reference PoseidonBN128 is NOT decided (no sound static argument in reach).",
-         "recurrence extraction from SSA phis + constant evaluation of package initialisers + slice-bound reasoning", "§4 C10 / §10.6"),
+ "C10": ("narrow structural clauses only (level other): the injectivity half of the property — limb packing in HashNoPad/HashOrNoop is Σ limb_k·base^k with constant base ≥ 2^64, exponent = limb index, bounded limb count with base^T ≤ r; ToVec chunks the canonical decomposition into consecutive disjoint ≤63-bit chunks; MulAcc accumulator discipline at every MulAcc site of the poseidon package (builder-independent results). Numeric agreement of the BN254 Poseidon permutation/sponge/shortcut with the reference PoseidonBN128 is NOT decided (no sound static argument in reach).",
+         "recurrence extraction from SSA phis + constant evaluation of package initialisers + slice-bound reasoning + ownership/liveness analysis of MulAcc accumulators", "§4 C10 / §10.6 / §10.8"),
  "C11": ("order + binding (level other): the observe/squeeze events of GetChallenges∘GetFriChallenges are totally ordered in plonky2's reference order, openings observed in content order, every transcript-bound leaf observed with full coverage, ObserveElement clears the output buffer. The sponge arithmetic over arbitrary histories is not decided.",
          "event-sequence extraction over the SSA CFG (dominance order) + content-sequence analysis", "§4 C11"),
  "C12": ("presence / coverage / provenance (level other) of the Merkle equalities for initial and commit-phase trees, index-bit provenance, caps order. Left/right ordering and lookup arithmetic are test-pinned, not claimed.",
